@@ -26,7 +26,8 @@ RULE = ("histories of 1..9 steps on PathLossGeneral / FreeSpace / 3GPP1 / "
         "MetisPS7 (LOS, NLOS with 1..6 walls, scalar and per-distance wall "
         "arrays) / OkomuraHata (4 area types); a step = optional setter call "
         "(n 1.5..6, fc 100..6000 MHz or 150..1500 for Hata, hbs 30..200, "
-        "hms 1..10, area type, small-distance policy) followed by queries at "
+        "hms 1..10, area type, small-distance policy; for Hata also values "
+        "outside these ranges, which must be refused) followed by queries at "
         "1..6 distances (log-uniform over 1e-3..1e3, a small-distance class "
         "1e-7..1e-3, and distances placed at 10^+-u around the model's 0 dB "
         "crossing) as scalars and as one array/list; sector antennas at "
